@@ -34,7 +34,7 @@ run)
   mkdir -p /tmp/wt
   git -C /repo worktree add -q --detach "$wt" HEAD || exit 2
   tag=$(python3 -c "import hashlib,sys;print(hashlib.sha1(sys.argv[1].encode()).hexdigest()[:10])" "$wt")
-  trap 'git -C /repo worktree remove --force "$wt" >/dev/null 2>&1; rm -rf "/tmp/verif-harness-$tag"' EXIT
+  trap 'git -C /repo worktree remove --force "$wt" >/dev/null 2>&1; rm -rf "/tmp/verif-harness-$tag" "/verif/work/repo-tests-target-$tag"' EXIT
   git -C "$wt" apply "$p" || { echo "patch does not apply"; exit 2; }
   cd /verif
   for id in "$@"; do
